@@ -72,6 +72,163 @@ Ltac sc_once :=
 Ltac sc := repeat (progress (sc_once; cbn [andb orb negb]; cbv beta iota)).
 
 (* ====================================================================================== *)
+(*                                   ECMA-376 ST_Xstring                                   *)
+(* ====================================================================================== *)
+Lemma hex_agree : forall h, is_ascii_hexdigit h = true -> hexval h = Some (to_digit16 h).
+Proof.
+  intros h H. unfold is_ascii_hexdigit, hexval, to_digit16 in *.
+  destruct ((48 <=? h) && (h <=? 57)) eqn:E1.
+  - assert (E : h <=? 57 = true) by lia. rewrite E. reflexivity.
+  - destruct ((65 <=? h) && (h <=? 70)) eqn:E2.
+    + assert (E : h <=? 57 = false) by lia. assert (E' : h <=? 70 = true) by lia.
+      rewrite E, E'. reflexivity.
+    + destruct ((97 <=? h) && (h <=? 102)) eqn:E3; [|discriminate].
+      assert (E : h <=? 57 = false) by lia. assert (E' : h <=? 70 = false) by lia.
+      rewrite E, E'. reflexivity.
+Qed.
+
+Lemma hex_disagree : forall h, is_ascii_hexdigit h = false -> hexval h = None.
+Proof.
+  intros h H. unfold is_ascii_hexdigit, hexval in *.
+  destruct ((48 <=? h) && (h <=? 57)); [discriminate|].
+  destruct ((65 <=? h) && (h <=? 70)); [discriminate|].
+  destruct ((97 <=? h) && (h <=? 102)); [discriminate|]. reflexivity.
+Qed.
+
+Lemma to_digit16_lt : forall h, is_ascii_hexdigit h = true -> to_digit16 h < 16.
+Proof.
+  intros h H. unfold is_ascii_hexdigit, to_digit16 in *.
+  destruct (h <=? 57) eqn:E1; [lia|]. destruct (h <=? 70) eqn:E2; lia.
+Qed.
+
+(* one step of either decoder, as an equation (the fixpoints do not unfold on open terms) *)
+Lemma xunescape_cons : forall c s', xunescape (c :: s') =
+  match s' with
+  | x :: h1 :: h2 :: h3 :: h4 :: u :: r =>
+    if (c =? 95) && (x =? 120) && (u =? 95) then
+      match hexval h1, hexval h2, hexval h3, hexval h4 with
+      | Some a, Some b, Some d, Some e =>
+        let v := a * 4096 + b * 256 + d * 16 + e in
+        if is_surrogate v then c :: xunescape s' else v :: xunescape r
+      | _, _, _, _ => c :: xunescape s'
+      end
+    else c :: xunescape s'
+  | _ => c :: xunescape s'
+  end.
+Proof. intros c s'. reflexivity. Qed.
+
+Lemma ux_loop_cons : forall c s', ux_loop (c :: s') =
+  match s' with
+  | x :: h1 :: h2 :: h3 :: h4 :: u :: r =>
+    if (c =? 95) && (x =? 120) && (u =? 95) then
+      if forallb is_ascii_hexdigit [h1; h2; h3; h4] then
+        match char_from_u32 (fold_left (fun a h => a * 16 + to_digit16 h) [h1; h2; h3; h4] 0) with
+        | Some ch => ch :: ux_loop r
+        | None => c :: ux_loop s'
+        end
+      else c :: ux_loop s'
+    else c :: ux_loop s'
+  | _ => c :: ux_loop s'
+  end.
+Proof. intros c s'. reflexivity. Qed.
+
+(* the loop of the Rust function computes the specification's decoding *)
+Lemma ux_loop_spec_len : forall n s, (length s <= n)%nat -> ux_loop s = xunescape s.
+Proof.
+  induction n as [|n IH]; intros s Hn.
+  - destruct s; [reflexivity | cbn [length] in Hn; lia].
+  - destruct s as [|c s']; [reflexivity|]. cbn [length] in Hn.
+    rewrite ux_loop_cons, xunescape_cons.
+    assert (IHs : ux_loop s' = xunescape s') by (apply IH; lia).
+    destruct s' as [|x [|h1 [|h2 [|h3 [|h4 [|u r]]]]]]; cbv beta iota; try (rewrite IHs; reflexivity).
+    assert (IHr : ux_loop r = xunescape r) by (apply IH; cbn [length] in Hn; lia).
+    destruct ((c =? 95) && (x =? 120) && (u =? 95)); [|rewrite IHs; reflexivity].
+    cbn [forallb]. rewrite andb_true_r.
+    destruct (is_ascii_hexdigit h1) eqn:E1; [|rewrite (hex_disagree h1 E1), IHs; reflexivity].
+    destruct (is_ascii_hexdigit h2) eqn:E2;
+      [|rewrite (hex_agree h1 E1), (hex_disagree h2 E2), IHs; reflexivity].
+    destruct (is_ascii_hexdigit h3) eqn:E3;
+      [|rewrite (hex_agree h1 E1), (hex_agree h2 E2), (hex_disagree h3 E3), IHs; reflexivity].
+    destruct (is_ascii_hexdigit h4) eqn:E4;
+      [|rewrite (hex_agree h1 E1), (hex_agree h2 E2), (hex_agree h3 E3), (hex_disagree h4 E4), IHs;
+        reflexivity].
+    cbn [andb fold_left].
+    rewrite (hex_agree h1 E1), (hex_agree h2 E2), (hex_agree h3 E3), (hex_agree h4 E4).
+    pose proof (to_digit16_lt h1 E1). pose proof (to_digit16_lt h2 E2).
+    pose proof (to_digit16_lt h3 E3). pose proof (to_digit16_lt h4 E4).
+    cbv zeta.
+    replace ((((0 * 16 + to_digit16 h1) * 16 + to_digit16 h2) * 16 + to_digit16 h3) * 16 + to_digit16 h4)
+      with (to_digit16 h1 * 4096 + to_digit16 h2 * 256 + to_digit16 h3 * 16 + to_digit16 h4) by lia.
+    set (v := to_digit16 h1 * 4096 + to_digit16 h2 * 256 + to_digit16 h3 * 16 + to_digit16 h4).
+    assert (Hv : v < 65536) by (unfold v; lia).
+    unfold char_from_u32, is_surrogate.
+    assert (Hb : (1114111 <? v) = false) by lia. rewrite Hb, orb_false_r.
+    destruct ((55296 <=? v) && (v <=? 57343)); [rewrite IHs | rewrite IHr]; reflexivity.
+Qed.
+
+Lemma ux_loop_spec : forall s, ux_loop s = xunescape s.
+Proof. intro s. apply (ux_loop_spec_len (length s)). apply le_n. Qed.
+
+(* the early return `if !s.contains("_x") { return s }` changes nothing *)
+Lemma no_ux_id : forall s, contains_ux s = false -> xunescape s = s.
+Proof.
+  induction s as [|c s' IH]; intro H; [reflexivity|].
+  cbn [contains_ux] in H. apply orb_false_iff in H. destruct H as [H1 H2].
+  rewrite xunescape_cons, (IH H2).
+  destruct s' as [|x [|h1 [|h2 [|h3 [|h4 [|u r]]]]]]; cbv beta iota; try reflexivity.
+  destruct (c =? 95); [|reflexivity]. cbn [andb] in H1. rewrite H1. reflexivity.
+Qed.
+
+(* MAIN (ST_Xstring, M = S): the Rust decoder is the specification's decoding, for every string *)
+Theorem unescape_xstring_spec : forall s, unescape_xstring s = xunescape s.
+Proof.
+  intro s. unfold unescape_xstring. destruct (contains_ux s) eqn:E; cbn [negb].
+  - apply ux_loop_spec.
+  - symmetry. apply no_ux_id. exact E.
+Qed.
+
+(* S on the writer's output *)
+Lemma hexval_hexdigit : forall d, d < 16 -> hexval (hexdigit d) = Some d.
+Proof.
+  intros d H. unfold hexval, hexdigit. destruct (d <? 10) eqn:E.
+  - assert (E1 : (48 <=? 48 + d) && (48 + d <=? 57) = true) by lia. rewrite E1. f_equal. lia.
+  - assert (E1 : (48 <=? 55 + d) && (55 + d <=? 57) = false) by lia.
+    assert (E2 : (65 <=? 55 + d) && (55 + d <=? 70) = true) by lia. rewrite E1, E2. f_equal. lia.
+Qed.
+
+Lemma xunescape_esc4 : forall c t, escapable c = true -> xunescape (esc4 c ++ t) = c :: xunescape t.
+Proof.
+  intros c t H. unfold escapable in H. apply andb_true_iff in H. destruct H as [Hc Hs].
+  apply negb_true_iff in Hs. assert (Hc' : c < 65536) by lia.
+  unfold esc4. cbn [app]. rewrite xunescape_cons. cbv beta iota.
+  change ((95 =? 95) && (120 =? 120) && (95 =? 95)) with true. cbv beta iota.
+  rewrite !hexval_hexdigit by lia. cbv zeta.
+  replace (c / 4096 * 4096 + c / 256 mod 16 * 256 + c / 16 mod 16 * 16 + c mod 16) with c by lia.
+  rewrite Hs. reflexivity.
+Qed.
+
+Lemma xunescape_plain : forall c t, (c =? 95) = false -> xunescape (c :: t) = c :: xunescape t.
+Proof.
+  intros c t H. rewrite xunescape_cons.
+  destruct t as [|x [|h1 [|h2 [|h3 [|h4 [|u r]]]]]]; cbv beta iota; try reflexivity.
+  rewrite H. reflexivity.
+Qed.
+
+(* MAIN (ST_Xstring, E then S): every string, written the way Excel writes it (with any choice of
+   the characters to escape), denotes itself *)
+Theorem xescape_roundtrip : forall must s, xunescape (xescape must s) = s.
+Proof.
+  intros must. induction s as [|c s IH]; [reflexivity|].
+  unfold xescape in *. cbn [flat_map].
+  destruct (c =? 95) eqn:E.
+  - cbn [orb]. rewrite xunescape_esc4, IH; [reflexivity|].
+    apply N.eqb_eq in E. subst c. reflexivity.
+  - cbn [orb]. destruct (must c && escapable c) eqn:Em.
+    + apply andb_true_iff in Em. destruct Em as [_ Em]. rewrite xunescape_esc4, IH by exact Em. reflexivity.
+    + cbn [app]. rewrite xunescape_plain, IH by exact E. reflexivity.
+Qed.
+
+(* ====================================================================================== *)
 (*                               xlsx read_string                                          *)
 (* ====================================================================================== *)
 (* run a segment of events that keeps the reader inside its loops *)
@@ -104,11 +261,9 @@ Proof.
     eapply IH; eassumption.
 Qed.
 
-(* outside F37 (_xHHHH_ escapes) the reader keeps exactly what is denoted *)
-Lemma tc_mtext_not_bad : forall tc, tc_bad tc = false -> tc_mtext tc = tc_text tc.
-Proof.
-  intros tc H. unfold tc_bad in H. apply negb_false_iff in H. apply str_eqb_eq in H. exact H.
-Qed.
+(* the reader keeps exactly what the content denotes *)
+Lemma tc_mtext_text : forall tc, tc_mtext tc = tc_text tc.
+Proof. intro tc. unfold tc_mtext, tc_text. apply unescape_xstring_spec. Qed.
 
 (* inside <t>: every chunk is appended, Text and CDATA alike *)
 Lemma rs_steps_in_t : forall closing rich tn tc v,
@@ -419,18 +574,15 @@ Proof.
   - rewrite (no_run_mtext ps E), app_nil_r. reflexivity.
 Qed.
 
-Lemma pieces_mtext_text : forall ps, existsb piece_bad ps = false ->
-  flat_map piece_mtext ps = flat_map piece_text ps.
+Lemma pieces_mtext_text : forall ps, flat_map piece_mtext ps = flat_map piece_text ps.
 Proof.
-  induction ps as [|p ps IH]; intro H; [reflexivity|].
-  cbn [existsb] in H. apply orb_false_iff in H. destruct H as [H1 H2].
-  cbn [flat_map]. rewrite (IH H2).
+  induction ps as [|p ps IH]; [reflexivity|]. cbn [flat_map]. rewrite IH.
   destruct p as [rpr pres tc|tc|]; [|reflexivity|reflexivity].
-  cbn [piece_mtext piece_text piece_bad] in *. rewrite (tc_mtext_not_bad tc H1). reflexivity.
+  cbn [piece_mtext piece_text]. rewrite tc_mtext_text. reflexivity.
 Qed.
 
 (* what read_string returns on any legal form: the characters of every <t> outside phonetic
-   runs, Text and CDATA alike, in order (the ST_Xstring layer as the switch says) *)
+   runs, Text and CDATA alike, in order, each <t> through unescape_xstring *)
 Definition item_mresult (f : item_form) : option str :=
   match f with
   | FPlain _ tc _ => Some (tc_mtext tc)
@@ -446,35 +598,31 @@ Proof.
   - cbn [legal_form item_mresult] in *. apply read_string_rich; assumption.
 Qed.
 
-Lemma item_mresult_known : forall f, known_item f = None -> item_mresult f = item_result f.
+Lemma item_mresult_result : forall f, item_mresult f = item_result f.
 Proof.
-  intros [preserve tc after|ps] Hk; cbn [known_item item_mresult item_result] in *.
-  - destruct (tc_bad tc) eqn:E; [discriminate|]. rewrite (tc_mtext_not_bad tc E). reflexivity.
-  - rewrite rich_after_spec.
-    destruct (existsb piece_bad ps) eqn:E; [discriminate|].
-    rewrite (pieces_mtext_text ps E). reflexivity.
+  intros [preserve tc after|ps]; cbn [item_mresult item_result].
+  - rewrite tc_mtext_text. reflexivity.
+  - rewrite rich_after_spec, pieces_mtext_text. reflexivity.
 Qed.
 
-(* MAIN (per item): every legal form outside the known class reads back as its text *)
+(* MAIN (per item): every legal form reads back as its text *)
 Theorem read_string_item : forall pfx cl f rest,
-  no_colon pfx = true -> cl_ok cl -> legal_form f = true -> known_item f = None ->
+  no_colon pfx = true -> cl_ok cl -> legal_form f = true ->
   read_string (qn pfx cl) (item_events pfx f ++ End (qn pfx cl) :: rest) = Ok (item_result f, rest).
 Proof.
-  intros pfx cl f rest Hp Hcl Hl Hk.
-  rewrite read_string_item_m by assumption.
-  rewrite (item_mresult_known f Hk). reflexivity.
+  intros pfx cl f rest Hp Hcl Hl.
+  rewrite read_string_item_m by assumption. rewrite item_mresult_result. reflexivity.
 Qed.
 
 (* the named consequences *)
 Theorem runs_concatenate : forall pfx cl ps rest,
   no_colon pfx = true -> cl_ok cl -> forallb legal_piece ps = true ->
-  known_item (FRich ps) = None ->
   existsb (fun p => negb (is_phonetic p)) ps = true ->
   read_string (qn pfx cl) (flat_map (piece_events pfx) ps ++ End (qn pfx cl) :: rest) =
   Ok (Some (flat_map piece_text ps), rest).
 Proof.
-  intros pfx cl ps rest Hp Hcl Hl Hk Hr.
-  pose proof (read_string_item pfx cl (FRich ps) rest Hp Hcl Hl Hk) as H.
+  intros pfx cl ps rest Hp Hcl Hl Hr.
+  pose proof (read_string_item pfx cl (FRich ps) rest Hp Hcl Hl) as H.
   cbn [item_events item_result] in H. rewrite Hr in H. exact H.
 Qed.
 
@@ -514,7 +662,7 @@ Proof.
 Qed.
 
 (* a CDATA section reads exactly like the same characters written as text: in every <t> of
-   every legal form, under every prefix, no known-class hypothesis *)
+   every legal form, under every prefix *)
 Theorem cdata_is_text : forall pfx cl f rest,
   no_colon pfx = true -> cl_ok cl -> legal_form f = true ->
   read_string (qn pfx cl) (item_events pfx f ++ End (qn pfx cl) :: rest) =
@@ -560,28 +708,17 @@ Proof.
   destruct (negb (is_phonetic p)); [cbn [forallb]; rewrite H1; apply IH; exact H2 | apply IH; exact H2].
 Qed.
 
-Lemma strip_known : forall f, known_item f = None -> known_item (strip_phonetic f) = None.
-Proof.
-  intros [preserve tc after|ps] H; [exact H|]. cbn [known_item strip_phonetic] in *.
-  destruct (existsb piece_bad ps) eqn:E; [discriminate|].
-  assert (E' : existsb piece_bad (filter (fun p => negb (is_phonetic p)) ps) = false).
-  { clear H. induction ps as [|p ps IH]; [reflexivity|]. cbn [existsb] in E.
-    apply orb_false_iff in E. destruct E as [E1 E2]. cbn [filter].
-    destruct (negb (is_phonetic p)); [cbn [existsb]; rewrite E1; apply IH; exact E2 | apply IH; exact E2]. }
-  rewrite E'. reflexivity.
-Qed.
-
 (* phonetic runs and phonetic properties contribute nothing: removing them from the item does
    not change what is read *)
 Theorem phonetic_contributes_nothing : forall pfx cl f rest rest',
-  no_colon pfx = true -> cl_ok cl -> legal_form f = true -> known_item f = None ->
+  no_colon pfx = true -> cl_ok cl -> legal_form f = true ->
   exists r,
     read_string (qn pfx cl) (item_events pfx f ++ End (qn pfx cl) :: rest) = Ok (r, rest) /\
     read_string (qn pfx cl) (item_events pfx (strip_phonetic f) ++ End (qn pfx cl) :: rest') = Ok (r, rest').
 Proof.
-  intros pfx cl f rest rest' Hp Hcl Hl Hk. exists (item_result f). split.
+  intros pfx cl f rest rest' Hp Hcl Hl. exists (item_result f). split.
   - apply read_string_item; assumption.
-  - rewrite read_string_item; try assumption; [|apply strip_legal; assumption|apply strip_known; assumption].
+  - rewrite read_string_item; try assumption; [|apply strip_legal; assumption].
     f_equal. f_equal. destruct f as [preserve tc after|ps]; [reflexivity|].
     cbn [item_result strip_phonetic]. rewrite strip_exists, strip_text. reflexivity.
 Qed.
@@ -645,52 +782,28 @@ Proof.
   rewrite app_nil_r, rev_involutive. reflexivity.
 Qed.
 
-Lemma item_mtext_known : forall f, known_item f = None -> item_mtext f = item_text f.
-Proof.
-  intros f H. unfold item_mtext. rewrite (item_mresult_known f H). apply item_result_text.
-Qed.
-
-Lemma known_items_mtext : forall items, known_items items = None ->
-  map (fun it => item_mtext (snd it)) items = map (fun it => item_text (snd it)) items.
-Proof.
-  induction items as [|[ws f] items IH]; intro H; [reflexivity|].
-  cbn [known_items fold_right snd] in H. destruct (known_item f) eqn:E; [discriminate|].
-  cbn [map snd]. rewrite (item_mtext_known f E). f_equal. apply IH. exact H.
-Qed.
+Lemma item_mtext_text : forall f, item_mtext f = item_text f.
+Proof. intro f. unfold item_mtext. rewrite item_mresult_result. apply item_result_text. Qed.
 
 (* MAIN (table): the i-th string of the table is the text of the i-th item, empty items included *)
 Theorem read_shared_strings_items : forall pfx sattrs items,
   no_colon pfx = true ->
-  forallb (fun it => legal_form (snd it)) items = true -> known_items items = None ->
+  forallb (fun it => legal_form (snd it)) items = true ->
   read_shared_strings (sst_events pfx sattrs items) = Ok (map (fun it => item_text (snd it)) items).
 Proof.
-  intros pfx sattrs items Hp Hl Hk.
+  intros pfx sattrs items Hp Hl.
   rewrite read_shared_strings_items_m by assumption.
-  rewrite (known_items_mtext items Hk). reflexivity.
-Qed.
-
-(* positions are kept whatever the items hold: an item of class F37 spoils only itself *)
-Theorem shared_table_positional : forall pfx sattrs items,
-  no_colon pfx = true ->
-  forallb (fun it => legal_form (snd it)) items = true ->
-  exists strs, read_shared_strings (sst_events pfx sattrs items) = Ok strs /\
-    length strs = length items /\
-    forall i ws f, nth_error items i = Some (ws, f) -> known_item f = None ->
-      nth_error strs i = Some (item_text f).
-Proof.
-  intros pfx sattrs items Hp Hl. eexists. split; [apply read_shared_strings_items_m; assumption|].
-  split; [apply map_length|]. intros i ws f Hi Hf.
-  rewrite nth_error_map, Hi. cbn [option_map snd]. rewrite (item_mtext_known f Hf). reflexivity.
+  f_equal. apply map_ext. intro it. apply item_mtext_text.
 Qed.
 
 Theorem shared_index_is_ith_item : forall pfx sattrs items,
   no_colon pfx = true ->
-  forallb (fun it => legal_form (snd it)) items = true -> known_items items = None ->
+  forallb (fun it => legal_form (snd it)) items = true ->
   exists strs, read_shared_strings (sst_events pfx sattrs items) = Ok strs /\
     length strs = length items /\
     forall i, nth_error strs i = option_map (fun it => item_text (snd it)) (nth_error items i).
 Proof.
-  intros pfx sattrs items Hp Hl Hk. eexists. split; [apply read_shared_strings_items; assumption|].
+  intros pfx sattrs items Hp Hl. eexists. split; [apply read_shared_strings_items; assumption|].
   split; [apply map_length|]. intro i. apply nth_error_map.
 Qed.
 
@@ -796,13 +909,13 @@ Proof.
   cbn [cc_steps cc_step]. rewrite str_eqb_refl. reflexivity.
 Qed.
 
-(* what the cell loop returns for every legal storage form (no known-class hypothesis) *)
+(* what the cell loop returns for every legal storage form, before relating it to S *)
 Definition store_mresult (strings : list str) (st : store) : outcome cellval :=
   match st with
   | StShared v =>
     match nth_error strings (N.to_nat (match parse_usize v with Some i => i | None => 0 end)) with
     | Some s => Ok (CString s)
-    | None => Panic
+    | None => Err ERR_INDEX
     end
   | StInline f => Ok (match item_mresult f with Some s => CString s | None => CEmpty end)
   | StFormula _ vtc => Ok (CString (tc_mtext vtc))
@@ -842,27 +955,27 @@ Qed.
 
 (* MAIN (cell): shared / inline / formula-string storage *)
 Theorem read_cell_store : forall pfx strings ref st rest,
-  no_colon pfx = true -> legal_store st = true -> known_store st = None ->
+  no_colon pfx = true -> legal_store st = true ->
   read_cell strings (cell_attrs ref st) (cell_events pfx st ++ rest) =
   match st with
   | StShared v =>
     match nth_error strings (N.to_nat (match parse_usize v with Some i => i | None => 0 end)) with
     | Some s => Ok (CString s, rest)
-    | None => Panic
+    | None => Err ERR_INDEX
     end
   | StInline f => Ok (match item_result f with Some s => CString s | None => CEmpty end, rest)
   | StFormula _ vtc => Ok (CString (tc_text vtc), rest)
   end.
 Proof.
-  intros pfx strings ref st rest Hp Hl Hk. rewrite read_cell_store_m by assumption.
-  destruct st as [v|f|ftc vtc]; cbn [store_mresult known_store] in *.
+  intros pfx strings ref st rest Hp Hl. rewrite read_cell_store_m by assumption.
+  destruct st as [v|f|ftc vtc]; cbn [store_mresult].
   - destruct (nth_error strings _); reflexivity.
-  - rewrite (item_mresult_known f Hk). reflexivity.
-  - destruct (tc_bad vtc) eqn:E; [discriminate|]. rewrite (tc_mtext_not_bad vtc E). reflexivity.
+  - rewrite item_mresult_result. reflexivity.
+  - rewrite tc_mtext_text. reflexivity.
 Qed.
 
-(* COMPOSITION: the text stored in an xlsx cell, in any storage form outside the known
-   class, is what the cell reader returns *)
+(* COMPOSITION: the text stored in an xlsx cell, in any storage form, is what the cell reader
+   returns *)
 Lemma nth_N_map : forall (A B : Type) (g : A -> B) l i, nth_N (map g l) i = option_map g (nth_N l i).
 Proof.
   intros A B g l i. unfold nth_N. rewrite map_length.
@@ -878,17 +991,17 @@ Qed.
 (* a cell against the table as the reader built it *)
 Lemma cell_survives : forall pfx items ref st s rest,
   no_colon pfx = true -> legal_store st = true ->
-  known_xlsx items st = None -> stored_text items st = Some s ->
+  stored_text items st = Some s ->
   read_cell (map (fun it => item_mtext (snd it)) items) (cell_attrs ref st) (cell_events pfx st ++ rest) =
   Ok (cell_expected st s, rest).
 Proof.
-  intros pfx items ref st s rest Hp Hls Hk Hs. unfold known_xlsx in Hk.
+  intros pfx items ref st s rest Hp Hls Hs.
   destruct st as [v|f|ftc vtc]; cbn [stored_text cell_expected] in *.
   - rewrite read_cell_store by (try assumption; reflexivity).
     destruct (parse_usize v) as [i|]; [|discriminate].
     rewrite <- nth_N_error, nth_N_map. destruct (nth_N items i) as [[ws f]|]; [|discriminate].
     cbn [option_map snd] in *. inversion Hs; subst.
-    rewrite (item_mtext_known f Hk). reflexivity.
+    rewrite (item_mtext_text f). reflexivity.
   - rewrite read_cell_store by assumption.
     inversion Hs; subst. destruct (item_result f) eqn:E; [|reflexivity].
     rewrite <- (item_result_text f), E. reflexivity.
@@ -898,13 +1011,12 @@ Qed.
 Theorem text_survives_xlsx : forall pfx sattrs items ref st s rest,
   no_colon pfx = true ->
   forallb (fun it => legal_form (snd it)) items = true -> legal_store st = true ->
-  known_xlsx items st = None ->
   stored_text items st = Some s ->
   exists strings,
     read_shared_strings (sst_events pfx sattrs items) = Ok strings /\
     read_cell strings (cell_attrs ref st) (cell_events pfx st ++ rest) = Ok (cell_expected st s, rest).
 Proof.
-  intros pfx sattrs items ref st s rest Hp Hli Hls Hk Hs.
+  intros pfx sattrs items ref st s rest Hp Hli Hls Hs.
   exists (map (fun it => item_mtext (snd it)) items). split.
   - apply read_shared_strings_items_m; assumption.
   - apply cell_survives; assumption.
@@ -924,7 +1036,6 @@ Qed.
 Definition cell_ok (items : list (str * item_form)) (c : attrs * str * store) : bool :=
   let '(_, _, st) := c in
   legal_store st
-  && match known_xlsx items st with None => true | Some _ => false end
   && match stored_text items st with Some _ => true | None => false end.
 Definition cell_spec (items : list (str * item_form)) (c : attrs * str * store) : attrs * cellval :=
   let '(_, ref, st) := c in
@@ -944,9 +1055,7 @@ Proof.
   - cbn [flat_map app sheet_run map]. rewrite (local_name_qn _ _ Hp no_colon_sheetData). sc.
     rewrite app_nil_r. reflexivity.
   - cbn [forallb] in H. apply andb_true_iff in H. destruct H as [H1 H2].
-    unfold cell_ok in H1. apply andb_true_iff in H1. destruct H1 as [H1 Hs].
-    apply andb_true_iff in H1. destruct H1 as [Hl Hk].
-    destruct (known_xlsx items st) eqn:Ek; [discriminate|].
+    unfold cell_ok in H1. apply andb_true_iff in H1. destruct H1 as [Hl Hs].
     destruct (stored_text items st) as [s|] eqn:Es; [|discriminate].
     cbn [flat_map app sheet_run]. rewrite (local_name_qn _ _ Hp no_colon_row). sc.
     rewrite (local_name_qn _ _ Hp no_colon_c). sc.
@@ -1129,26 +1238,22 @@ Qed.
 Definition cuts_ok (cuts : list nat) (s : str) : bool :=
   forallb (fun p => str_eqb (xunescape p) p) (chop cuts s).
 
-(* a run holding characters without escapes denotes them and is read as them, whatever the
-   switch says (this proof does not depend on the value of xstring_decode_on_read) *)
-Lemma run_piece_facts : forall p, str_eqb (xunescape p) p = true ->
-  piece_text (PRun [] true [TcText p]) = p /\ piece_bad (PRun [] true [TcText p]) = false.
+(* a run holding characters without escapes denotes them *)
+Lemma run_piece_text : forall p, str_eqb (xunescape p) p = true ->
+  piece_text (PRun [] true [TcText p]) = p.
 Proof.
   intros p H. apply str_eqb_eq in H.
-  cbn [piece_text piece_bad]. unfold tc_bad, tc_mtext, tc_text, tc_raw, xstring_decode_on_read.
-  cbn [flat_map]. rewrite app_nil_r, ?H. split; [reflexivity|].
-  rewrite str_eqb_refl. reflexivity.
+  cbn [piece_text]. unfold tc_text, tc_raw. cbn [flat_map]. rewrite app_nil_r. exact H.
 Qed.
 
 Lemma runs_facts : forall l, forallb (fun p => str_eqb (xunescape p) p) l = true ->
   flat_map piece_text (map (fun p => PRun [] true [TcText p]) l) = concat l /\
-  existsb piece_bad (map (fun p => PRun [] true [TcText p]) l) = false /\
   forallb legal_piece (map (fun p => PRun [] true [TcText p]) l) = true.
 Proof.
   induction l as [|p l IH]; intro H; [repeat split|].
   cbn [forallb] in H. apply andb_true_iff in H. destruct H as [H1 H2].
-  destruct (IH H2) as (I1 & I2 & I3). destruct (run_piece_facts p H1) as [P1 P2].
-  cbn [map flat_map concat existsb forallb]. rewrite P1, P2, I1, I2, I3. repeat split.
+  destruct (IH H2) as (I1 & I3).
+  cbn [map flat_map concat forallb]. rewrite (run_piece_text p H1), I1, I3. repeat split.
 Qed.
 
 Lemma runs_of_text : forall cuts s, cuts_ok cuts s = true -> item_text (runs_of cuts s) = s.
@@ -1158,48 +1263,38 @@ Proof.
 Qed.
 
 Lemma runs_of_legal : forall cuts s, cuts_ok cuts s = true ->
-  legal_form (runs_of cuts s) = true /\ known_item (runs_of cuts s) = None /\
-  item_result (runs_of cuts s) = Some s.
+  legal_form (runs_of cuts s) = true /\ item_result (runs_of cuts s) = Some s.
 Proof.
   intros cuts s H. pose proof (runs_of_text cuts s H) as Ht. unfold runs_of in *.
-  cbn [legal_form known_item item_result item_text] in *. rewrite Ht.
-  destruct (runs_facts (chop cuts s) H) as (_ & H2 & H3). rewrite H2, H3. repeat split.
+  cbn [legal_form item_result item_text] in *. rewrite Ht.
+  destruct (runs_facts (chop cuts s) H) as (_ & H3). rewrite H3. repeat split.
   destruct cuts; reflexivity.
 Qed.
 
+(* an escape cut by a run boundary is no escape: each <t> is an ST_Xstring of its own; so the
+   cuts must not fall inside one ([cuts_ok] is a statement about S, not about the reader) *)
 Theorem runs_at_any_cuts : forall pfx cl cuts s rest,
   no_colon pfx = true -> cl_ok cl -> cuts_ok cuts s = true ->
   read_string (qn pfx cl) (item_events pfx (runs_of cuts s) ++ End (qn pfx cl) :: rest) =
   Ok (Some s, rest).
 Proof.
-  intros pfx cl cuts s rest Hp Hcl Hc. destruct (runs_of_legal cuts s Hc) as (Hl & Hk & Hr).
-  pose proof (read_string_item pfx cl (runs_of cuts s) rest Hp Hcl Hl Hk) as H.
+  intros pfx cl cuts s rest Hp Hcl Hc. destruct (runs_of_legal cuts s Hc) as (Hl & Hr).
+  pose proof (read_string_item pfx cl (runs_of cuts s) rest Hp Hcl Hl) as H.
   rewrite Hr in H. exact H.
 Qed.
 
-(* ---------- refutation: the remaining xlsx class is real ---------- *)
-(* F37: <si><t>a_x000D_</t></si> denotes "a" CR (ECMA-376 ST_Xstring; this is how Excel writes a
-   carriage return) and reads as the eight characters a_x000D_.
-   DELETE this lemma when xstring_decode_on_read becomes xunescape (it then fails, as it must). *)
-Theorem refuted_F37 :
-  exists f, legal_form f = true /\ known_item f = Some K_F37 /\
-    item_text f = [97; 13] /\
-    forall rest, read_string n_si (item_events [] f ++ End n_si :: rest) =
-                 Ok (Some [97; 95; 120; 48; 48; 48; 68; 95], rest).
+(* the ST_Xstring layer end to end: any string s, written the way Excel writes it, stored as a
+   plain <t> (text and CDATA chunks in any arrangement [tc] whose characters are that writing),
+   under any prefix, with any phonetic data after it: read_string returns s *)
+Theorem xstring_text_survives : forall pfx cl must s preserve tc after rest,
+  no_colon pfx = true -> cl_ok cl -> forallb is_phonetic after = true ->
+  tc_raw tc = xescape must s ->
+  read_string (qn pfx cl) (item_events pfx (FPlain preserve tc after) ++ End (qn pfx cl) :: rest) =
+  Ok (Some s, rest).
 Proof.
-  exists (FPlain false [TcText [97; 95; 120; 48; 48; 48; 68; 95]] []).
-  repeat split; vm_compute; reflexivity.
-Qed.
-
-(* the same on the <v> of a formula string cell: <c t="str"><f>1</f><v>_x000a_</v></c> *)
-Theorem refuted_F37_formula :
-  exists st, legal_store st = true /\ known_store st = Some K_F37 /\
-    stored_text [] st = Some [10] /\
-    read_cell [] (cell_attrs [65; 49] st) (cell_events [] st) =
-    Ok (CString [95; 120; 48; 48; 48; 97; 95], []).
-Proof.
-  exists (StFormula [TcText [49]] [TcText [95; 120; 48; 48; 48; 97; 95]]).
-  repeat split; vm_compute; reflexivity.
+  intros pfx cl must s preserve tc after rest Hp Hcl Ha Hr.
+  rewrite read_string_item by assumption. cbn [item_result]. unfold tc_text.
+  rewrite Hr, xescape_roundtrip. reflexivity.
 Qed.
 
 (* ====================================================================================== *)
@@ -1235,42 +1330,27 @@ Proof.
     eapply IH; eassumption.
 Qed.
 
-(* outside F35 / F36 the content loop keeps of a piece exactly what it denotes; the proof
-   does not depend on the values of ods_tab_text / ods_break_text *)
-Lemma switch_eq : forall (a b : str) (k : N),
-  (if str_eqb a b then None else Some k) = None -> a = b.
-Proof.
-  intros a b k H. destruct (str_eqb a b) eqn:E; [apply str_eqb_eq in E; exact E | discriminate].
-Qed.
-
-Lemma opiece_mtext_known : forall p, known_opiece p = None -> opiece_mtext p = opiece_text p.
-Proof.
-  intros [s|s|c| | |st| |] H; cbn [known_opiece opiece_mtext opiece_text] in *;
-    first [apply switch_eq in H; exact H | reflexivity].
-Qed.
-
+(* the content loop keeps of a piece exactly what it denotes *)
 Lemma opiece_steps : forall cname val p s first, legal_opiece p = true ->
-  od_steps cname val (OdMain s first) (opiece_events p) = Some (OdMain (s ++ opiece_mtext p) first).
+  od_steps cname val (OdMain s first) (opiece_events p) = Some (OdMain (s ++ opiece_text p) first).
 Proof.
   intros cname val p s first Hl.
-  destruct p as [t|t|[c|]| | |st| |]; cbn [opiece_events od_steps od_step opiece_mtext opiece_text];
+  destruct p as [t|t|[c|]| | |st| |]; cbn [opiece_events od_steps od_step opiece_text];
     sc; rewrite ?app_nil_r; try reflexivity.
   - (* text:s with text:c *)
     cbn [get_attribute]. sc. cbn [legal_opiece] in Hl.
     destruct (parse_i32 c) as [k|]; [reflexivity|discriminate].
 Qed.
 
-Definition para_mtext (ps : list opiece) : str := flat_map opiece_mtext ps.
-
 Lemma opieces_steps : forall cname val ps s first, forallb legal_opiece ps = true ->
   od_steps cname val (OdMain s first) (flat_map opiece_events ps) =
-  Some (OdMain (s ++ para_mtext ps) first).
+  Some (OdMain (s ++ para_text ps) first).
 Proof.
   induction ps as [|p ps IH]; intros s first H.
   - cbn. rewrite app_nil_r. reflexivity.
   - cbn [forallb] in H. apply andb_true_iff in H. destruct H as [H1 H2].
     cbn [flat_map]. eapply od_steps_app; [apply opiece_steps; exact H1|].
-    rewrite (IH _ first H2). unfold para_mtext. cbn [flat_map]. rewrite app_assoc. reflexivity.
+    rewrite (IH _ first H2). unfold para_text. cbn [flat_map]. rewrite app_assoc. reflexivity.
 Qed.
 
 Lemma annot_body_steps : forall cname val body s first,
@@ -1287,7 +1367,7 @@ Qed.
 (* state of the content loop after one child of the cell *)
 Definition citem_after (sf : str * bool) (c : citem) : str * bool :=
   match c with
-  | CPara ps => ((if snd sf then fst sf else fst sf ++ [10]) ++ para_mtext ps, false)
+  | CPara ps => ((if snd sf then fst sf else fst sf ++ [10]) ++ para_text ps, false)
   | CAnnot _ => sf
   end.
 
@@ -1326,7 +1406,7 @@ Qed.
 
 Lemma fold_citem_after_false : forall cs s,
   fold_left citem_after cs (s, false) =
-  (s ++ flat_map (fun t => 10 :: t) (map para_mtext (paras_of cs)), false).
+  (s ++ flat_map (fun t => 10 :: t) (map para_text (paras_of cs)), false).
 Proof.
   induction cs as [|c cs IH]; intro s.
   - cbn. rewrite app_nil_r. reflexivity.
@@ -1336,32 +1416,13 @@ Proof.
 Qed.
 
 Lemma fold_citem_after_true : forall cs,
-  fst (fold_left citem_after cs ([], true)) = join_nl (map para_mtext (paras_of cs)).
+  fst (fold_left citem_after cs ([], true)) = join_nl (map para_text (paras_of cs)).
 Proof.
   induction cs as [|c cs IH]; [reflexivity|].
   cbn [fold_left]. destruct c as [ps|body]; cbn [citem_after fst snd].
   - rewrite fold_citem_after_false. unfold paras_of. cbn [flat_map app map fst].
     rewrite join_nl_cons. reflexivity.
   - exact IH.
-Qed.
-
-Lemma para_mtext_known : forall ps, known_para ps = None -> para_mtext ps = para_text ps.
-Proof.
-  induction ps as [|p ps IH]; intro H; [reflexivity|].
-  cbn [known_para fold_right] in H. destruct (known_opiece p) eqn:E; [discriminate|].
-  unfold para_mtext, para_text in *. cbn [flat_map].
-  rewrite (opiece_mtext_known p E). f_equal. apply IH. exact H.
-Qed.
-
-Lemma content_mtext_known : forall cs, known_content cs = None ->
-  map para_mtext (paras_of cs) = map para_text (paras_of cs).
-Proof.
-  induction cs as [|c cs IH]; intro H; [reflexivity|].
-  cbn [known_content fold_right] in H. destruct c as [ps|body].
-  - destruct (known_para ps) eqn:E; [discriminate|].
-    unfold paras_of in *. cbn [flat_map app map]. rewrite (para_mtext_known ps E).
-    f_equal. apply IH. exact H.
-  - unfold paras_of in *. cbn [flat_map app]. apply IH. exact H.
 Qed.
 
 Definition cell_name_ok (cname : str) : Prop := cname = o_cell \/ cname = o_covered.
@@ -1382,16 +1443,15 @@ Qed.
    transparent, annotations skipped *)
 Theorem ods_space_paragraph_roundtrip : forall cname extra cs rest,
   cell_name_ok cname -> legal_extra extra = true -> legal_content cs = true ->
-  known_content cs = None ->
   ods_cell cname (ods_cell_attrs extra (OsContent cs)) (ods_cell_events cname (OsContent cs) ++ rest) =
   Ok (OString (content_text cs), [], rest).
 Proof.
-  intros cname extra cs rest Hc He Hl Hk. unfold ods_cell, ods_cell_attrs.
+  intros cname extra cs rest Hc He Hl. unfold ods_cell, ods_cell_attrs.
   rewrite ods_attrs_extra by exact He. cbn [ods_attrs]. sc.
   unfold ods_cell_events, ods_cell_content. rewrite <- app_assoc.
   rewrite (od_run_steps _ _ _ _ _ _ (content_steps cname OEmpty cs [] true Hl)).
   cbn [app od_run od_step obind].
-  rewrite fold_citem_after_true, (content_mtext_known cs Hk).
+  rewrite fold_citem_after_true.
   destruct Hc; subst cname; sc; reflexivity.
 Qed.
 
@@ -1428,11 +1488,10 @@ Definition legal_ods_full (cname : str) (st : ods_store) : bool :=
 
 Theorem text_survives_ods : forall cname extra st rest,
   cell_name_ok cname -> legal_extra extra = true -> legal_ods_full cname st = true ->
-  known_ods st = None ->
   ods_cell cname (ods_cell_attrs extra st) (ods_cell_events cname st ++ rest) =
   Ok (OString (ods_text st), [], rest).
 Proof.
-  intros cname extra [cs|s cs] rest Hc He Hl Hk; cbn [legal_ods_full known_ods ods_text] in *.
+  intros cname extra [cs|s cs] rest Hc He Hl; cbn [legal_ods_full ods_text] in *.
   - apply ods_space_paragraph_roundtrip; assumption.
   - apply ods_string_value_attr; assumption.
 Qed.
@@ -1464,22 +1523,21 @@ Lemma spaces_as_elements_text : forall line, para_text (spaces_as_elements line)
 Proof.
   induction line as [|c line IH]; [reflexivity|].
   unfold para_text, spaces_as_elements in *. cbn [map flat_map]. rewrite IH.
-  destruct (c =? SPACE) eqn:E; cbn [opiece_text app]; [|reflexivity].
-  apply N.eqb_eq in E. subst c. reflexivity.
+  destruct (c =? SPACE) eqn:E; cbn [opiece_text app].
+  - apply N.eqb_eq in E. subst c. reflexivity.
+  - destruct (c =? 9) eqn:E9; cbn [opiece_text app]; [|reflexivity].
+    apply N.eqb_eq in E9. subst c. reflexivity.
 Qed.
 
-Lemma spaces_as_elements_ok : forall line,
-  forallb legal_opiece (spaces_as_elements line) = true /\ known_para (spaces_as_elements line) = None.
+Lemma spaces_as_elements_ok : forall line, forallb legal_opiece (spaces_as_elements line) = true.
 Proof.
-  induction line as [|c line [IH1 IH2]]; [split; reflexivity|].
-  unfold spaces_as_elements in *. cbn [map forallb known_para fold_right].
-  fold (known_para (map (fun c0 => if c0 =? SPACE then OSp None else OLit [c0]) line)).
-  rewrite IH1, IH2. destruct (c =? SPACE); split; reflexivity.
+  induction line as [|c line IH]; [reflexivity|].
+  unfold spaces_as_elements in *. cbn [map forallb]. rewrite IH.
+  destruct (c =? SPACE); [reflexivity|]. destruct (c =? 9); reflexivity.
 Qed.
 
 Theorem ods_encode_text : forall s,
-  content_text (ods_encode s) = s /\ legal_content (ods_encode s) = true /\
-  known_content (ods_encode s) = None.
+  content_text (ods_encode s) = s /\ legal_content (ods_encode s) = true.
 Proof.
   intro s. unfold ods_encode, content_text.
   assert (Hp : forall l, paras_of (map (fun line => CPara (spaces_as_elements line)) l) =
@@ -1488,38 +1546,174 @@ Proof.
     rewrite IH. reflexivity. }
   rewrite Hp, map_map.
   rewrite (map_ext _ (fun x => x) spaces_as_elements_text), map_id, join_split.
-  split; [reflexivity|]. generalize (split_nl s). intro l. split.
-  - induction l as [|x l IH]; [reflexivity|]. unfold legal_content in *. cbn [map forallb legal_citem].
-    rewrite (proj1 (spaces_as_elements_ok x)), IH. reflexivity.
-  - induction l as [|x l IH]; [reflexivity|]. cbn [map known_content fold_right].
-    rewrite (proj2 (spaces_as_elements_ok x)). exact IH.
+  split; [reflexivity|]. generalize (split_nl s). intro l.
+  induction l as [|x l IH]; [reflexivity|]. unfold legal_content in *. cbn [map forallb legal_citem].
+  rewrite (spaces_as_elements_ok x), IH. reflexivity.
 Qed.
 
 Theorem ods_encode_survives : forall s rest,
   ods_cell o_cell (ods_cell_attrs [] (OsContent (ods_encode s)))
            (ods_cell_events o_cell (OsContent (ods_encode s)) ++ rest) = Ok (OString s, [], rest).
 Proof.
-  intros s rest. destruct (ods_encode_text s) as (Ht & Hl & Hk).
+  intros s rest. destruct (ods_encode_text s) as (Ht & Hl).
   rewrite ods_space_paragraph_roundtrip; try assumption; try reflexivity.
   - rewrite Ht. reflexivity.
   - left. reflexivity.
 Qed.
 
-(* ---------- refutations for ods ---------- *)
-(* F35: <text:p>a<text:tab/>b</text:p> denotes "a<TAB>b" and reads "ab".
-   DELETE this lemma when ods_tab_text becomes [9]. *)
-Theorem refuted_F35 :
-  exists cs, legal_content cs = true /\ known_content cs = Some K_F35 /\
-    content_text cs = [97; 9; 98] /\
-    ods_cell o_cell (ods_cell_attrs [] (OsContent cs)) (ods_cell_events o_cell (OsContent cs)) =
-    Ok (OString [97; 98], [], []).
-Proof. exists [CPara [OLit [97]; OTab; OLit [98]]]. repeat split; vm_compute; reflexivity. Qed.
+(* ====================================================================================== *)
+(*            totality (C06): no event list makes a reader panic or run out of fuel        *)
+(* ====================================================================================== *)
+(* no transition panics *)
+Lemma rs_step_no_boom : forall cl st e, rs_step cl st e <> Boom.
+Proof.
+  intros cl st e. destruct st as [rich phon|rich tn v|v d]; destruct e as [n a|n|s|s|]; cbn [rs_step];
+    try discriminate.
+  - destruct (str_eqb (local_name n) n_r); [discriminate|].
+    destruct (str_eqb (local_name n) n_rPh); [discriminate|].
+    destruct (str_eqb (local_name n) n_t && negb phon); discriminate.
+  - destruct (str_eqb n cl); [discriminate|]. destruct (str_eqb (local_name n) n_rPh); discriminate.
+  - destruct (str_eqb n tn); [|discriminate]. destruct rich; discriminate.
+  - destruct (str_eqb n cl); discriminate.
+  - destruct (str_eqb n cl); [|discriminate]. destruct (d =? 0); discriminate.
+Qed.
 
-(* F36: <text:p>a<text:line-break/>b</text:p> denotes "a<LF>b" and reads "ab".
-   DELETE this lemma when ods_break_text becomes [10]. *)
-Theorem refuted_F36 :
-  exists cs, legal_content cs = true /\ known_content cs = Some K_F36 /\
-    content_text cs = [97; 10; 98] /\
-    ods_cell o_cell (ods_cell_attrs [] (OsContent cs)) (ods_cell_events o_cell (OsContent cs)) =
-    Ok (OString [97; 98], [], []).
-Proof. exists [CPara [OLit [97]; OBreak; OLit [98]]]. repeat split; vm_compute; reflexivity. Qed.
+Lemma read_v_no_boom : forall v strings ca, read_v v strings ca <> Boom.
+Proof.
+  intros v strings ca. unfold read_v. destruct (get_attribute ca a_t) as [t|]; [|discriminate].
+  destruct (str_eqb t v_s).
+  - destruct (_ <? _); [|discriminate]. destruct (nth_error strings _); discriminate.
+  - destruct (str_eqb t v_str); [discriminate|].
+    destruct (str_eqb t v_b || str_eqb t v_e || str_eqb t v_d || str_eqb t v_n); discriminate.
+Qed.
+
+Lemma cc_step_no_boom : forall strings ca st e, cc_step strings ca st e <> Boom.
+Proof.
+  intros strings ca st e. destruct st as [value|cl rs|vn acc|fn d]; cbn [cc_step].
+  - destruct e as [n a|n|s|s|]; try discriminate.
+    + destruct (str_eqb (local_name n) n_is); [discriminate|].
+      destruct (str_eqb (local_name n) n_v); [discriminate|].
+      destruct (str_eqb (local_name n) n_f); discriminate.
+    + destruct (str_eqb (local_name n) n_c); discriminate.
+  - pose proof (rs_step_no_boom cl rs e) as H. destruct (rs_step cl rs e); try discriminate.
+    congruence.
+  - destruct e as [n a|n|s|s|]; try discriminate.
+    destruct (str_eqb n vn); [|discriminate].
+    pose proof (read_v_no_boom acc strings ca) as H. destruct (read_v acc strings ca); try discriminate.
+    congruence.
+  - destruct e as [n a|n|s|s|]; try discriminate.
+    + destruct (str_eqb n fn); discriminate.
+    + destruct (str_eqb n fn); [|discriminate]. destruct (d =? 0); discriminate.
+Qed.
+
+Lemma fc_step_no_boom : forall st e, fc_step st e <> Boom.
+Proof.
+  intros st e. destruct st as [value|nm sh d value|fn sh acc]; destruct e as [n a|n|s|s|]; cbn [fc_step];
+    try discriminate.
+  - destruct (str_eqb (local_name n) n_is || str_eqb (local_name n) n_v); [discriminate|].
+    destruct (str_eqb (local_name n) n_f); discriminate.
+  - destruct (str_eqb (local_name n) n_c); discriminate.
+  - destruct (str_eqb n nm); discriminate.
+  - destruct (str_eqb n nm); [|discriminate]. destruct (d =? 0); discriminate.
+  - destruct (str_eqb n fn); discriminate.
+Qed.
+
+Lemma od_step_no_boom : forall cn val st e, od_step cn val st e <> Boom.
+Proof.
+  intros cn val st e. destruct st as [s first|s first|d]; destruct e as [n a|n|t|t|]; cbn [od_step];
+    try discriminate.
+  - destruct (str_eqb n o_annot); [discriminate|].
+    destruct (str_eqb n o_p); [destruct first; discriminate|].
+    destruct (str_eqb n o_s).
+    + destruct (get_attribute a o_c) as [c|]; [|discriminate]. destruct (parse_i32 c); discriminate.
+    + destruct (str_eqb n o_tab); [discriminate|]. destruct (str_eqb n o_break); discriminate.
+  - destruct (str_eqb n o_cell || str_eqb n o_covered); discriminate.
+  - destruct (str_eqb n o_annot); discriminate.
+  - destruct (str_eqb n cn); discriminate.
+  - destruct (str_eqb n cn); [|discriminate]. destruct (d =? 0); discriminate.
+Qed.
+
+(* hence no run does, from any state, on any event list; and no run needs fuel *)
+Lemma rs_run_total : forall cl evs st, rs_run cl st evs <> Panic /\ rs_run cl st evs <> OutOfFuel.
+Proof.
+  induction evs as [|e evs IH]; intro st; cbn [rs_run]; [split; discriminate|].
+  pose proof (rs_step_no_boom cl st e) as H.
+  destruct (rs_step cl st e); try (split; discriminate); [apply IH | congruence].
+Qed.
+
+Lemma cc_run_total : forall strings ca evs st,
+  cc_run strings ca st evs <> Panic /\ cc_run strings ca st evs <> OutOfFuel.
+Proof.
+  induction evs as [|e evs IH]; intro st; cbn [cc_run]; [split; discriminate|].
+  pose proof (cc_step_no_boom strings ca st e) as H.
+  destruct (cc_step strings ca st e); try (split; discriminate); [apply IH | congruence].
+Qed.
+
+Lemma od_run_total : forall cn val evs st,
+  od_run cn val st evs <> Panic /\ od_run cn val st evs <> OutOfFuel.
+Proof.
+  induction evs as [|e evs IH]; intro st; cbn [od_run]; [split; discriminate|].
+  pose proof (od_step_no_boom cn val st e) as H.
+  destruct (od_step cn val st e); try (split; discriminate); [apply IH | congruence].
+Qed.
+
+Theorem read_string_total : forall closing evs,
+  read_string closing evs <> Panic /\ read_string closing evs <> OutOfFuel.
+Proof. intros closing evs. apply rs_run_total. Qed.
+
+Theorem read_cell_total : forall strings ca evs,
+  read_cell strings ca evs <> Panic /\ read_cell strings ca evs <> OutOfFuel.
+Proof. intros strings ca evs. apply cc_run_total. Qed.
+
+Theorem read_shared_strings_total : forall evs,
+  read_shared_strings evs <> Panic /\ read_shared_strings evs <> OutOfFuel.
+Proof.
+  intro evs. unfold read_shared_strings. generalize (@None (str * rs_state)) as cur. generalize (@nil str) as racc.
+  induction evs as [|e evs IH]; intros racc cur; cbn [sst_run]; [split; discriminate|].
+  destruct cur as [[cl st]|].
+  - pose proof (rs_step_no_boom cl st e) as H.
+    destruct (rs_step cl st e); try (split; discriminate); [apply IH | apply IH | congruence].
+  - destruct e as [n a|n|s|s|]; try apply IH.
+    + destruct (str_eqb (local_name n) n_si); apply IH.
+    + destruct (str_eqb (local_name n) n_sst); [split; discriminate | apply IH].
+Qed.
+
+Theorem read_sheet_cells_total : forall strings evs,
+  read_sheet_cells strings evs <> Panic /\ read_sheet_cells strings evs <> OutOfFuel.
+Proof.
+  intros strings evs. unfold read_sheet_cells.
+  generalize (@None (attrs * cc_state)) as cur. generalize (@nil (attrs * cellval)) as racc.
+  induction evs as [|e evs IH]; intros racc cur; cbn [sheet_run]; [split; discriminate|].
+  destruct cur as [[ca st]|].
+  - pose proof (cc_step_no_boom strings ca st e) as H.
+    destruct (cc_step strings ca st e); try (split; discriminate); [apply IH | apply IH | congruence].
+  - destruct e as [n a|n|s|s|]; try apply IH.
+    + destruct (str_eqb (local_name n) n_c); apply IH.
+    + destruct (str_eqb (local_name n) n_sheetData); [split; discriminate | apply IH].
+Qed.
+
+Theorem read_sheet_formulas_total : forall evs,
+  read_sheet_formulas evs <> Panic /\ read_sheet_formulas evs <> OutOfFuel.
+Proof.
+  intro evs. unfold read_sheet_formulas.
+  generalize (@None (attrs * fc_state)) as cur. generalize (@nil (attrs * fval)) as racc.
+  induction evs as [|e evs IH]; intros racc cur; cbn [fsheet_run]; [split; discriminate|].
+  destruct cur as [[ca st]|].
+  - pose proof (fc_step_no_boom st e) as H.
+    destruct (fc_step st e); try (split; discriminate); [apply IH | apply IH | congruence].
+  - destruct e as [n a|n|s|s|]; try apply IH.
+    + destruct (str_eqb (local_name n) n_c); apply IH.
+    + destruct (str_eqb (local_name n) n_sheetData); [split; discriminate | apply IH].
+Qed.
+
+Theorem ods_cell_total : forall cname a evs,
+  ods_cell cname a evs <> Panic /\ ods_cell cname a evs <> OutOfFuel.
+Proof.
+  intros cname a evs. unfold ods_cell.
+  destruct (ods_attrs a false false OEmpty []) as [[[is_string is_set] val] formula].
+  destruct (negb is_set && is_string).
+  - destruct (od_run_total cname val evs (OdMain [] true)) as [H1 H2].
+    destruct (od_run cname val (OdMain [] true) evs); cbn [obind]; try (split; discriminate); tauto.
+  - destruct (od_run_total cname val evs (OdSkip 0)) as [H1 H2].
+    destruct (od_run cname val (OdSkip 0) evs); cbn [obind]; try (split; discriminate); tauto.
+Qed.
